@@ -105,7 +105,14 @@ func (c19) Gen(rng *rand.Rand, tier string, i int) *sim.Scenario {
 	c.E2E = pick(rng, 0, 0, 1)
 	sc := &sim.Scenario{Property: "C19", Calls: []sim.Call{c}}
 	if host == "127.0.0.2" {
-		sc.Listeners = []sim.Listener{{Addr: "127.0.0.2", Permitted: true, ISN: rng.Uint32(), ServerSeq: rng.Uint32()}}
+		lp := c.Port
+		if lp == 0 {
+			lp = 33434
+		}
+		if lp < 1 || lp > 65535 {
+			lp = 8080
+		}
+		sc.Listeners = []sim.Listener{{Addr: "127.0.0.2", Port: lp, Permitted: true, ISN: rng.Uint32(), ServerSeq: rng.Uint32()}}
 		if c.Port >= 0 && c.Port <= 65535 {
 			sc.Calls[0].Listener = 1 // the listener's kernel-chosen port replaces any representable port
 		}
